@@ -282,8 +282,9 @@ def ItemOK : Item → Prop
 
 theorem sqrt_is_fn : vName "sqrt".toList = .fn := by
   have h : globalFns.contains ("sqrt".toList.map Char.toNat) = true := by decide +kernel
+  have h0 : ("sqrt".toList.map Char.toNat == [0]) = false := by decide +kernel
   unfold vName
-  simp only [h, if_true]
+  simp only [h, h0, if_true, Bool.false_eq_true, if_false]
 
 theorem evalP_expSyn_sem (e : Rat) : NumSem (evalP (expSyn e)) e := by
   unfold expSyn
@@ -304,7 +305,13 @@ theorem evalP_expSyn_sem (e : Rat) : NumSem (evalP (expSyn e)) e := by
     exact evalP_ratSyn_sem e
 
 theorem evalP_name_ok {s : String} (h : Ordinary s) : evalP (.name s.toList) = .ok (.mono ⟨1, [(s, 1)]⟩) := by
-  simp only [evalP]; rw [h]
+  simp only [evalP]
+  by_cases h0 : (s.toList.map Char.toNat == [0]) = true
+  · exfalso
+    unfold Ordinary vName at h
+    simp only [h0, if_true] at h
+    cases h
+  · simp only [h0]; rw [h]; rfl
 
 theorem evalP_item_sem (it : Item) (h : ItemOK it) : Sem (evalP (itemSyn it)) (evalItem it) := by
   cases it with
